@@ -22,6 +22,16 @@
 
   `w.log` is the list of raw memory accesses performed (each `copy_nonoverlapping`, each range a
   scripted file touched); `rdAddrs`/`wrAddrs` are the byte addresses read / written, in order.
+
+  Content vocabulary (Fbr.Lemmas.XportCSys): `delivered s i op` = the bytes operation `op`, run
+  in state `s`, returns into the caller's buffer (`read`, `read_obj`) or hands to its sink
+  (`read_to(_at)`, `read_exact_to`) through reader handle `i` (`[]` if `op` is not a reader
+  operation on `i`); `placed s i op` = the bytes `op` stores through writer handle `i`: the first
+  `n` bytes of its source — the caller's buffer(s) in order, the scripted file's byte stream from
+  its position — with `n` the advance of the cursor (= the count the operation reports,
+  `writer_ops_place_what_they_report`); `deliveredAll s i ops` / `placedAll s i ops` = their
+  concatenation over an operation list, in operation order, each operation evaluated in the
+  state the previous ones left.
 -/
 import Fbr.Lemmas.XportSys
 import Fbr.Lemmas.XportOnce
@@ -30,6 +40,7 @@ import Fbr.Lemmas.XportSplitWrite
 import Fbr.Lemmas.XportFuse2
 import Fbr.Lemmas.XportChain
 import Fbr.Lemmas.XportStart
+import Fbr.Lemmas.XportCThm
 
 namespace Fbr.Thm.C04
 open Fbr.Xport
@@ -237,21 +248,39 @@ theorem read_returns_request_bytes (b : IoBufs) (w : World) (n : Nat) (hwf : WF 
   rw [hrest, h1b, hb]
   simp [List.length_take]
 
-/-- **Reads are the request bytes, in order.**  ANY sequence of `read` calls (any buffer sizes,
-    including 0 and more than is left) over ANY buffer list: the bytes returned, concatenated in
-    call order, followed by what the reader still holds, are exactly the request — nothing
-    skipped, nothing repeated; the counter is the number of bytes handed out.
-    PARTIAL: the byte-content statement is proved for `read` (and so for `read_exact`/`read_obj`,
-    which only loop over it); for `read_to(_at)`/`read_exact_to` through a scripted file the
-    in-order/exactly-once statement is proved on ADDRESSES for any operation list
-    (`every_reader_op_advances`, `every_byte_moved_exactly_once`), the delivered bytes themselves
-    are compared by the differential run and the `C04:reader-bytes:*` oracles. -/
-theorem reads_are_request_bytes_in_order_partial (b : IoBufs) (w : World) (ns : List Nat) (hwf : WF w.mem b.segs)
-    (hov : b.consumed + total b.segs < USIZE) :
-    (readMany b w ns).1.flatten ++ flat w.mem (readMany b w ns).2.1.segs = flat w.mem b.segs
-      ∧ (readMany b w ns).2.1.consumed = b.consumed + (readMany b w ns).1.flatten.length
-      ∧ (readMany b w ns).2.2.mem = w.mem :=
-  readMany_spec b w ns hwf.inMem hov
+/-- **Reads are the request bytes, in order** (content level, any operation list).  Start from
+    any request (any chain layout; the readable and the writable descriptors do not share a
+    byte), run ANY operation list `pre` (reads, object reads, file transfers, splits, writes on
+    any handles), pick ANY reader handle `i` that exists then — the original reader or one half
+    of any split — and run ANY further operation list `ops` that does not split handle `i`
+    itself (operations on all other handles, including their splits, and all writer operations
+    may be interleaved arbitrarily; `read_to(_at)`/`read_exact_to` go through scripted files
+    with short counts, EIO, EINTR, with or without vectored overrides).  Then the bytes
+    delivered through `i` — returned by `read`/`read_obj`, handed to the sinks — concatenated in
+    operation order, followed by what the handle still holds, are exactly what it held before,
+    read through the ORIGINAL memory: a prefix of the request bytes, nothing skipped, nothing
+    repeated, nothing altered; the counter grew by the number of bytes delivered; and what is
+    still ahead is still unmodified in memory. -/
+theorem reads_are_request_bytes_in_order (st : St) (pre ops : List Op) (h : Start st)
+    (hdisj : ∀ a ∈ readable st, a ∉ writable st)
+    (hr : ∀ b ∈ st.readers, WF st.w.mem b.segs) (hw : ∀ b ∈ st.writers, WF st.w.mem b.segs)
+    (i : Nat) (b0 : IoBufs) (hi : (exec st pre).readers[i]? = some b0) (hns : ∀ k, Op.rs i k ∉ ops) :
+    ∃ bf, (exec (exec st pre) ops).readers[i]? = some bf
+      ∧ deliveredAll (exec st pre) i ops ++ flat st.w.mem bf.segs = flat st.w.mem b0.segs
+      ∧ bf.consumed = b0.consumed + (deliveredAll (exec st pre) i ops).length
+      ∧ (∀ a ∈ addrs bf.segs, (exec (exec st pre) ops).w.mem.byteAt a = st.w.mem.byteAt a) :=
+  reads_core pre ops h hdisj hr hw i b0 hi hns
+
+/-- `delivered` is what a caller observes (and what the differential run compares with the real
+    `Reader`): the `bytes` of the observation of `step` — for `read` always, for `read_obj` when it
+    succeeds (a failing `read_obj` has consumed and dropped what `delivered` lists), for the file
+    transfers when the scripted sink starts empty (its `got` afterwards). -/
+theorem delivered_bytes_are_the_observed_ones (s : St) (h : Nat) (b : IoBufs) (hg : s.readers[h]? = some b) :
+    (∀ n, (step s (.rd h n)).2.bytes = delivered s h (.rd h n))
+    ∧ (∀ n, (Reader.readObj b s.w n).res = .ok () → (step s (.ro h n)).2.bytes = delivered s h (.ro h n))
+    ∧ (∀ count at_ sc, sc.got = [] → (step s (.rt h count at_ sc)).2.bytes = delivered s h (.rt h count at_ sc))
+    ∧ (∀ count sc, sc.got = [] → (step s (.re h count sc)).2.bytes = delivered s h (.re h count sc)) :=
+  obs_bytes_delivered s h b hg
 
 /-- The same on addresses for EVERY reader operation (object reads, file transfers with any
     scripted file, retry loops): each advances the cursor by some `n`, reading exactly the next
@@ -273,39 +302,58 @@ theorem every_writer_op_advances (b : IoBufs) (w : World) (hp : 0 < w.p) (hov : 
   ⟨fun d => vwrite_adv b w d hp hov, fun bufs => writeVectored_adv b w bufs hp hov,
    fun src count at_ => writeFrom_adv b w src count at_ hp hov, fun src count => writeAllFrom_adv b w src count hp hov⟩
 
-/-- **Writes are the concatenation written.**  ANY sequence of `write` calls that fits, over ANY
-    list of pairwise non-overlapping buffers inside their regions: afterwards the writer's
-    original buffers hold exactly `data₁ ++ data₂ ++ …` followed by their old content beyond, and
-    no other byte of memory changed.
-    PARTIAL: content proved for `write` sequences; for `write_vectored` (a loop over `write`),
-    `write_from(_at)` and `write_all_from` the statement is proved on ADDRESSES for any operation
-    list (`every_writer_op_advances`, `every_byte_moved_exactly_once`, `no_byte_written_twice`);
-    their bytes are compared by the differential run and the `C04:writer-bytes:*` oracles. -/
-theorem writes_are_concatenation_partial (b : IoBufs) (w : World) (datas : List Bytes) (hp : 0 < w.p)
-    (hnd : (addrs b.segs).Nodup) (hwf : WF w.mem b.segs)
-    (hov : b.consumed + total b.segs < USIZE) (hfit : datas.flatten.length ≤ b.available) :
-    flat (writeMany b w datas).2.mem b.segs = datas.flatten ++ (flat w.mem b.segs).drop datas.flatten.length
-      ∧ (writeMany b w datas).1.consumed = b.consumed + datas.flatten.length
-      ∧ (∀ a, a ∉ (addrs b.segs).take datas.flatten.length →
-            (writeMany b w datas).2.mem.byteAt a = w.mem.byteAt a) := by
-  rw [available_eq_total] at hfit
-  obtain ⟨_, m2, _, _, m5, _⟩ := writeMany_mem b w datas hp hnd hwf.inMem hov hfit
-  exact ⟨writeMany_flat b w datas hp hnd hwf.inMem hov hfit, m5, m2⟩
+/-- **Writes are the concatenation written** (content level, any operation list).  Start from
+    any request whose writable descriptors do not overlap, run ANY operation list `pre`, pick
+    ANY writer handle `i` that exists then (the original writer or a half of any split), and run
+    ANY further operation list `ops` that does not split handle `i` itself (`write`,
+    `write_vectored`, `write_from(_at)`, `write_all_from` with any scripted source — short counts,
+    EIO, EINTR, trait-default vectored methods —, failing and refused operations, operations on
+    every other handle and reader operations interleaved arbitrarily).  Then the buffers handle
+    `i` held hold exactly the concatenation, in operation order, of what was stored through it,
+    followed by their old content (unused space untouched); its counter grew by that length; it
+    still holds exactly the rest; and no byte outside the space the writers held changed. -/
+theorem writes_are_concatenation (st : St) (pre ops : List Op) (h : Start st) (hnd : (writable st).Nodup)
+    (hr : ∀ b ∈ st.readers, WF st.w.mem b.segs) (hw : ∀ b ∈ st.writers, WF st.w.mem b.segs)
+    (i : Nat) (b0 : IoBufs) (hi : (exec st pre).writers[i]? = some b0) (hns : ∀ k, Op.ws i k ∉ ops) :
+    ∃ bf, (exec (exec st pre) ops).writers[i]? = some bf
+      ∧ flat (exec (exec st pre) ops).w.mem b0.segs
+          = placedAll (exec st pre) i ops
+            ++ (flat (exec st pre).w.mem b0.segs).drop (placedAll (exec st pre) i ops).length
+      ∧ bf.consumed = b0.consumed + (placedAll (exec st pre) i ops).length
+      ∧ addrs bf.segs = (addrs b0.segs).drop (placedAll (exec st pre) i ops).length
+      ∧ (∀ a, a ∉ ahead (exec st pre).writers →
+          (exec (exec st pre) ops).w.mem.byteAt a = (exec st pre).w.mem.byteAt a) :=
+  writes_core pre ops h hnd hr hw i b0 hi hns
 
-/-- **Split header/data writers.**  Split a writer at `k`; write any data buffers through the
-    second part, then any header buffers through the first part (all fitting): the original
-    buffers hold `header ++ (untouched rest of the first k bytes) ++ data ++ (untouched rest)`.
-    PARTIAL: the order data-then-header (the one the server uses) is fixed; arbitrary
-    interleavings of the two writers are covered on addresses by `every_byte_moved_exactly_once`. -/
-theorem split_writers_concatenate_partial (b a o : IoBufs) (w : World) (k : Nat) (hs : b.splitAt k = .ok (a, o))
-    (datas hdrs : List Bytes) (hp : 0 < w.p)
-    (hnd : (addrs b.segs).Nodup) (hwf : WF w.mem b.segs) (hov : b.consumed + total b.segs < USIZE)
-    (hfd : datas.flatten.length ≤ o.available) (hfh : hdrs.flatten.length ≤ a.available) :
-    flat (writeMany a (writeMany o w datas).2 hdrs).2.mem b.segs
-      = (hdrs.flatten ++ (flat w.mem a.segs).drop hdrs.flatten.length)
-        ++ (datas.flatten ++ (flat w.mem o.segs).drop datas.flatten.length) := by
-  rw [available_eq_total] at hfd hfh
-  exact split_write_flat b a o w k hs datas hdrs hp hnd hwf.inMem hov hfd hfh
+/-- **Memory changes only where something was written**: after ANY operation list every byte
+    whose address is not in the write log is as it was — with `accesses_in_bounds`: nothing
+    outside the writable descriptors ever changes, and (`no_byte_written_twice`) space a writer
+    has not consumed is untouched. -/
+theorem memory_changes_only_where_written (st : St) (ops : List Op) (h : Start st)
+    (hr : ∀ b ∈ st.readers, WF st.w.mem b.segs) (hw : ∀ b ∈ st.writers, WF st.w.mem b.segs) :
+    (∀ a, a ∉ wrAddrs (exec st ops).w.log → (exec st ops).w.mem.byteAt a = st.w.mem.byteAt a)
+    ∧ (∀ x, ((exec st ops).w.mem.get x).length = (st.w.mem.get x).length) :=
+  ⟨exec_frame_log ops (start_cinv h hr hw) (fun _ _ => rfl), (exec_cinv ops (start_cinv h hr hw)).len⟩
+
+/-- **Split header/data writers** (content level, any operation list).  After ANY operation list
+    `pre`, split ANY writer handle `i` at `k` into a header half (still `i`) and a data half (the
+    new handle, index `writers.length`), then run ANY operation list that does not split these
+    two halves again — any interleaving of any writer operations on the two halves (data first,
+    header first, alternating, short or failing `write_from`s, …) and of operations on other
+    handles.  The buffers the writer held before the split then hold
+    `(everything stored through the header half) ++ (untouched rest of the first k bytes) ++
+     (everything stored through the data half) ++ (untouched rest)`. -/
+theorem split_writers_concatenate (st : St) (pre ops : List Op) (h : Start st) (hnd : (writable st).Nodup)
+    (hr : ∀ b ∈ st.readers, WF st.w.mem b.segs) (hw : ∀ b ∈ st.writers, WF st.w.mem b.segs)
+    (i k : Nat) (b a o : IoBufs) (hi : (exec st pre).writers[i]? = some b) (hs : b.splitAt k = .ok (a, o))
+    (hns : ∀ k', Op.ws i k' ∉ ops ∧ Op.ws (exec st pre).writers.length k' ∉ ops) :
+    flat (exec (exec st (pre ++ [.ws i k])) ops).w.mem b.segs
+      = (placedAll (exec st (pre ++ [.ws i k])) i ops
+          ++ (flat (exec st pre).w.mem a.segs).drop (placedAll (exec st (pre ++ [.ws i k])) i ops).length)
+        ++ (placedAll (exec st (pre ++ [.ws i k])) (exec st pre).writers.length ops
+          ++ (flat (exec st pre).w.mem o.segs).drop
+              (placedAll (exec st (pre ++ [.ws i k])) (exec st pre).writers.length ops).length) :=
+  split_core pre ops h hnd hr hw i k b a o hi hs hns
 
 /-- The constructors establish the hypotheses used above: a cursor built from ANY descriptor
     chain starts at 0, cannot overflow `usize`, keeps the descriptor lengths in order, and every
